@@ -121,7 +121,7 @@ fn broken(rng: &mut Rng) -> TextItem {
         while !text.is_char_boundary(pos) {
             pos -= 1;
         }
-        match rng.below(11) {
+        match rng.below(13) {
             0 => text.insert(pos, *rng.pick(&['@', '!', '%', '^', '&', '*', '+', '=', ';', '.', '[', ']', '\'', '"', '\\', '`', '~', '?', '|'])),
             1 => text.insert_str(pos, "$ "),
             2 => text.insert_str(pos, " /x "),
@@ -147,6 +147,25 @@ fn broken(rng: &mut Rng) -> TextItem {
                 } else {
                     text.push('$');
                 }
+            }
+            10 => {
+                // an outer attribute whose brackets balance in number but not in kind (a lexical
+                // error reported from inside the attribute), or a well-formed one with nested
+                // brackets of all three kinds, at the start of a line
+                let attr = *rng.pick(&[
+                    "#[derive(Clone, Debug])",
+                    "#[foo(])",
+                    "#[a{b)]",
+                    "#[x[y}]",
+                    "#[(])",
+                    "#[cfg(any(a, b))] #[doc = \"[x]\"]",
+                    "#[outer{inner[deep(1)]}]",
+                    "#[derive(Clone)] #[derive(Debug])",
+                ]);
+                let starts: Vec<usize> =
+                    std::iter::once(0).chain(text.match_indices('\n').map(|(i, _)| i + 1)).collect();
+                let at = starts[rng.below(starts.len())];
+                text.insert_str(at, &format!("{attr}\n"));
             }
             9 => {
                 // `$` + reserved word: a lexical error reported just past the word;
